@@ -1,5 +1,18 @@
 open Common
 open Codec_model
+(* Codec_model extracts Coq's [string] (kind names); in this file [string] is OCaml's *)
+type cstring = Codec_model.string
+type string = Stdlib.String.t
+
+let ocaml_of_cstring (s : cstring) : string =
+  let b = Buffer.create 32 in
+  let bit x k = if x then k else 0 in
+  let rec go = function
+    | EmptyString -> ()
+    | String (Ascii (b0, b1, b2, b3, b4, b5, b6, b7), r) ->
+        Buffer.add_char b (Char.chr (bit b0 1 + bit b1 2 + bit b2 4 + bit b3 8 + bit b4 16 + bit b5 32 + bit b6 64 + bit b7 128));
+        go r in
+  go s; Buffer.contents b
 
 (* ---- numbers ---- *)
 let rec pos_of_int (i : int) : positive =
@@ -50,7 +63,13 @@ let str_of_hex h = dec_all (bytes_of_hex h)
 let hex_of_str s = hex_of_bytes (enc_all s)
 
 (* ---- sexp -> model AST ---- *)
-let str_of = function Sq h -> str_of_hex h | _ -> failwith "expected string"
+(* a Go string is represented in the model by the rune sequence `range s` yields; the representation is
+   faithful iff the string is the UTF-8 encoding of that sequence (set to false otherwise) *)
+let faithful = ref true
+let str_of = function
+  | Sq h -> let r = str_of_hex h in
+            if hex_of_str r <> String.lowercase_ascii h then faithful := false; r
+  | _ -> failwith "expected string"
 let bool_of = function At "1" -> true | At "0" -> false | _ -> failwith "expected bool"
 let z_of = function At x -> z_of_x x | _ -> failwith "expected x-number"
 
@@ -221,7 +240,30 @@ and sexp_of_cidr (Cidr (inv, ip, m)) =
 let show_res (f : 'a -> string) (r : 'a res) : string =
   match r with OK a -> f a | Err -> "err" | Crash -> "crash" | OutOfFuel -> "fuel"
 
-(* requests:  enc <sexp list>   |  dec <hex> *)
+(* ---- the plugin path ---- *)
+let kname k = ocaml_of_cstring (kind_name k)
+let show_req (r : req_result) : string =
+  match r with
+  | ROk s -> "ok " ^ kname (kind_of s) ^ " " ^ sexp_to_string (sexp_of_stmt s)
+  | RDecodeErr -> "decode" | REmpty -> "empty" | RType k -> "type:" ^ kname k
+  | RCrash -> "crash" | RHang -> "fuel"
+
+(* ReadLinterRequest[T] for EVERY T of the LintStatement union, aggregated:
+   "<ok T sexp ...|none> | rest <distinct other results>" *)
+let plug_all (bs : byte list) : string =
+  (* read_request t bs = classify t (decode bs) by definition: the decoder runs once for all T *)
+  let d = decode bs in
+  let rs = List.map (fun t -> show_req (classify t d)) (List.filter lintable all_kinds) in
+  let is_ok r = String.length r >= 3 && String.sub r 0 3 = "ok " in
+  let oks = List.filter is_ok rs in
+  let rest = List.sort_uniq compare (List.filter (fun r -> not (is_ok r)) rs) in
+  (if oks = [] then "none" else String.concat " " oks) ^ " | rest " ^ String.concat "," rest
+
+let wf_flag (model_ok : bool) : string =
+  if not !faithful then "wf 0 utf8" else if model_ok then "wf 1" else "wf 0 model"
+
+(* requests:  enc <sexp list> | enc1 <sexp stmt> | dec <hex> | plug <hex>
+   every AST given is also checked against the hypothesis of the round-trip theorem: "| wf 1|0" *)
 let handle (req : string) : string =
   let cmd, arg =
     match String.index_opt req ' ' with
@@ -230,10 +272,21 @@ let handle (req : string) : string =
   match cmd with
   | "enc" ->
       (match parse_sexps arg with
-       | [Ls l] -> show_res (fun bs -> "enc " ^ hex_of_bytes bs) (encode (List.map stmt_of l))
+       | [Ls l] ->
+           faithful := true;
+           let ss = List.map stmt_of l in
+           show_res (fun bs -> "enc " ^ hex_of_bytes bs) (encode ss) ^ " | " ^ wf_flag (wfb_block ss)
+       | _ -> "badreq")
+  | "enc1" ->
+      (match parse_sexps arg with
+       | [x] ->
+           faithful := true;
+           let s = stmt_of x in
+           show_res (fun bs -> "enc " ^ hex_of_bytes bs) (encode1 s) ^ " | " ^ wf_flag (wfb_stmt s)
        | _ -> "badreq")
   | "dec" ->
       show_res (fun ss -> "ok " ^ sexp_to_string (Ls (List.map sexp_of_stmt ss))) (decode (bytes_of_hex arg))
+  | "plug" -> plug_all (bytes_of_hex arg)
   | _ -> "badreq"
 
 let () = serve handle
